@@ -597,6 +597,11 @@ def m_slice_iter(ex, a, callee, canon):
     if isinstance(v, Bytes):
         items = ex.seq_items(v.s)
         if items is not None:
+            if canon.endswith("iter_mut"):
+                base_ptr = a[0]
+                while isinstance(base_ptr.get(), Ptr):
+                    base_ptr = base_ptr.get()
+                return IterV([SeqElemPtr(base_ptr, i) for i in range(len(items))], False)
             return IterV([Int(t, "u8") for t in items], True)
         return BytesIter(v.s)      # byte string of symbolic length: only whole-string consumers (extend, collect, copied/cloned) are modelled
     raise Unsupported(f"iter over {v!r}")
@@ -618,7 +623,7 @@ def m_vec_into_iter(ex, a, callee, canon):
     raise Unsupported(f"into_iter over {v!r}")
 
 
-@model(r"^<(std::ops::)?Range<.*> as IntoIterator>::into_iter$|^<.*(Iter|IntoIter|Map|FlatMap|Enumerate|FilterMap|Filter)<.*> as IntoIterator>::into_iter$")
+@model(r"^<(std::ops::)?Range<.*> as IntoIterator>::into_iter$|^<.*(Iter|IterMut|IntoIter|Map|FlatMap|Enumerate|FilterMap|Filter|Chain|Copied|Cloned|Rev|Zip|Skip|Take|ChunksExact|Chunks|Split)<.*> as IntoIterator>::into_iter$")
 def m_identity_into_iter(ex, a, callee, canon):
     return a[0]
 
@@ -1659,3 +1664,16 @@ def m_slices_concat(ex, a, callee, canon):
     if not isinstance(v, (ListV, Arr)):
         raise Unsupported(f"concat on {v!r}")
     return Bytes(seq_concat(*[ex.bytes_of(x) for x in v.f]) if v.f else z3.Empty(SEQ))
+
+
+
+@model(r"^core::slice::<impl \[u8\]>::split_at$")
+def m_split_at_base(ex, a, callee, canon):
+    items = ex.seq_items(ex.bytes_of(a[0]))
+    if items is None:
+        raise Unsupported("split_at on a byte string of symbolic length")
+    k = ex.concretize(a[1].t, range(len(items) + 1))
+    if k is None:
+        raise PathPanic("slice::split_at: mid > len")
+    mk = lambda xs: Ptr([Bytes(seq_of(xs))], 0)
+    return Struct("tuple", [mk(items[:k]), mk(items[k:])])
